@@ -48,6 +48,12 @@ $(B)/plain/c11: $(B)/plain/c11.o $(PLAIN_SIM) $(B)/plain/sim_mpi.o
 $(B)/plain/c12: $(B)/plain/c12.o $(PLAIN_SIM) $(B)/plain/sim_mpi.o
 	$(CXX) -no-pie $^ -o $@
 
+# C10 is two translation units (real valued worlds; block / complex valued worlds)
+$(B)/plain/c10: $(B)/plain/c10.o $(B)/plain/c10_valued.o $(PLAIN_SIM)
+	$(CXX) -no-pie $^ -o $@
+$(B)/asan/c10: $(B)/asan/c10.o $(B)/asan/c10_valued.o $(ASAN_SIM)
+	$(CXX) -fsanitize=address,undefined $^ -o $@
+
 $(B)/plain/%: $(B)/plain/%.o $(PLAIN_SIM)
 	$(CXX) -no-pie $^ -o $@
 $(B)/asan/%: $(B)/asan/%.o $(ASAN_SIM)
